@@ -142,6 +142,12 @@ def check(repo: Repo) -> Result:
 
     r6 = res.rule("C10-R6", "a deep copy of a registry keeps its default unit system, so in_base() on a copied quantity stays inside that system (shared with C11-R3)", floor=1)
     share(res, r6, "C11", lambda t: c11.rebuilt_from_table(repo, t), ["C11-R3"], want=lambda k: k == "__deepcopy__:unit-system")
+    from rules import memo_rules
+
+    r7 = res.rule("C10-R7", "the memoised electromagnetic route keeps unit systems apart: a cached function keyed by a unit system either sees it by identity or by an equality that covers everything the cached answer is computed from (a user system redefined under the same name must not be served the old system's base units)", floor=1)
+    for key, ok, where, msg, exp, found in memo_rules.cached_identity_params(repo):
+        if ":unit-system-key-equality:" in key:
+            res.check(ok, key, where, msg, exp, found, rid=r7)
     return res
 
 
@@ -389,6 +395,7 @@ def synthesis(repo, res):
 
 
 MUTANTS = [
+    Mutant("unit-system-equal-by-name", US, None, "    def __str__(self):\n        return self.name\n", "    def __str__(self):\n        return self.name\n\n    def __eq__(self, other):\n        return isinstance(other, UnitSystem) and self.name == other.name\n\n    def __hash__(self):\n        return hash(self.name)\n", ("C10-R7",)),
     Mutant("cgs-pressure-wrong", US, None, 'cgs_unit_system["pressure"] = "dyne/cm**2"', 'cgs_unit_system["pressure"] = "dyne/cm"', ("C10-R1",)),
     Mutant("imperial-energy-wrong", US, None, 'imperial_unit_system["energy"] = "ft*lbf"', 'imperial_unit_system["energy"] = "ft*lb"', ("C10-R1",)),
     Mutant("galactic-time-wrong", US, None, 'UnitSystem("galactic", "kpc", "Msun", "Myr")', 'UnitSystem("galactic", "kpc", "Msun", "Mpc")', ("C10-R1",)),
